@@ -65,6 +65,16 @@ CUSTOM = {
     'c1d22': {'expr': '(inner(grad(u), grad(v)) + 3 * inner(u, v)) * dx', 'bfuns': [['u', 2], ['v', 2]],
               'dim': 1, 'symmetric': True},
     # 3D vector 2x2, not symmetric (thorough)
+    # 3D vector forms with NON-SQUARE component blocks (four levels in the packed layout): 1x3, 3x1, 3x2, 2x3
+    'c3d13': {'expr': 'div(u) * v * dx', 'bfuns': [['u', 3], ['v', 1]], 'dim': 3, 'symmetric': False},
+    'c3d31': {'expr': '(inner(grad(u), v) + u * v[1]) * dx', 'bfuns': [['u', 1], ['v', 3]], 'dim': 3, 'symmetric': False},
+    'c3d23': {'expr': '(u[0]*v[0] + 2*u[1]*v[2] + Dx(u[0],2)*v[1] + 3*Dx(u[1],0)*Dx(v[0],1)) * dx',
+              'bfuns': [['u', 2], ['v', 3]], 'dim': 3, 'symmetric': False},
+    'c3d32': {'expr': '(u[0]*v[0] + 2*u[2]*v[1] + Dx(u[1],1)*v[0] + 3*u[2]*Dx(v[1],2)) * dx',
+              'bfuns': [['u', 3], ['v', 2]], 'dim': 3, 'symmetric': False},
+    # 2D: one-component trial or test function next to a vector-valued one
+    'c2d12': {'expr': 'div(u) * v * dx', 'bfuns': [['u', 2], ['v', 1]], 'dim': 2, 'symmetric': False},
+    'c2d21': {'expr': 'inner(grad(u), v) * dx', 'bfuns': [['u', 1], ['v', 2]], 'dim': 2, 'symmetric': False},
     'c3d22': {'expr': '(inner(as_matrix([[1,4],[0,2]]).dot(u), v) + Dx(u[0],2)*v[1]) * dx',
               'bfuns': [['u', 2], ['v', 2]], 'dim': 3, 'symmetric': False},
 }
@@ -244,6 +254,9 @@ def gen_cases(ctx):
         add(None, 2, 'qa', True, True, False, custom='c2d22')
         add(None, 2, 'unit', True, True, False, custom='c2d23')
         add(None, 1, 'line', True, True, True, custom='c1d22')
+        for nm in ('c3d13', 'c3d31', 'c3d23', 'c3d32'):
+            add(None, 3, rng.choice(['unit', 'twisted']), True, True, False, custom=nm)
+        add(None, 2, 'qa', True, True, False, custom=rng.choice(['c2d12', 'c2d21']))
         # larger cases: property predicate on the implementation + thread counts only
         add('stiff', 2, 'qa', False, False, True, bbox=True)
         add('mass', 3, 'twisted', False, False, True)
@@ -717,6 +730,8 @@ def check_property_on_impl(ctx, case, res, stats):
                 cmp_list(key, exp, 'subset-blocks', {'indices': sub})
         if st.get('blocks_full') == 'Ok' and 'blocks_full_again' in arr:
             cmp_list('blocks_full_again', dec(arr['blocks_full'])[0], 'reuse')
+            if 'blocks_full_kept' in arr:
+                cmp_list('blocks_full_kept', dec(arr['blocks_full'])[0], 'result-buffer-changed')
             exp = []
             for (i, j) in ref.P_impl:
                 exp += ref.block_get(i, j)
@@ -731,6 +746,8 @@ def check_property_on_impl(ctx, case, res, stats):
             cmp_list('single', [ref.get(i, j) for (i, j) in case['single']], 'entry', {'indices': case['single']})
         if 'entries_full_again' in arr:
             cmp_list('entries_full_again', dec(arr['entries_full'])[0], 'reuse')
+            if 'entries_full_kept' in arr:
+                cmp_list('entries_full_kept', dec(arr['entries_full'])[0], 'result-buffer-changed')
             cmp_list('entries_full', [ref.get(i, j) for (i, j) in ref.P_impl], 'subset-entries')
         if st.get('rows') == 'Ok':
             I, J = res['info']['rows_IJ']
